@@ -58,6 +58,32 @@ def pairs(ctx, n):
         if len(t) < len(p):
             t = t + [rng.randrange(sigma) for _ in range(len(p) - len(t))]
         out.append((t, p))
+    # several planted copies of the pattern of different quality, separated by junk long enough to push the running score far above the best hit
+    # so far (band/threshold logic: blocks dropped and re-activated), the best copy last or in the middle
+    for _ in range(max(30, n // 5)):
+        m = rng.choice([65, 70, 100, 128, 155, 200, 255, 300, 640])
+        sigma = rng.choice([4, 13])
+        p = [rng.randrange(sigma) for _ in range(m)]
+        t = []
+        ncop = rng.randint(2, 5)
+        quals = [rng.choice([0, 1, 2, 3, 6, 12]) for _ in range(ncop)]
+        for q in quals:
+            t += [rng.randrange(sigma) for _ in range(rng.choice([0, 30, 80, 200, 400]))]
+            c = list(p)
+            for _e in range(q):
+                k = rng.randrange(len(c))
+                r = rng.random()
+                if r < 0.4:
+                    c[k] = rng.randrange(sigma)
+                elif r < 0.7 and len(c) > 1:
+                    del c[k]
+                else:
+                    c.insert(k, rng.randrange(sigma))
+            t += c
+        t += [rng.randrange(sigma) for _ in range(rng.choice([0, 10, 100]))]
+        if len(t) < len(p):
+            t += [rng.randrange(sigma) for _ in range(len(p) - len(t))]
+        out.append((t, p))
     # lane-structured patterns (see tools/gen_bpm.py): full 64-symbol lanes of a symbol absent from the text, lane 0 cut from the text --
     # a carry from lane 0 must ripple through one, two or more all-ones lanes
     for _ in range(max(20, n // 6)):
